@@ -88,6 +88,7 @@ def same_strand(i):
 
 class HasOverlap(_Pair):
     func = SINGLE + ".has_overlap"
+    no_summaries = (SINGLE + "._has_overlap_single_interval",)  # these cases verify the real body
 
     def __init__(self, parents, strict):
         self.parents, self.strict = parents, strict
@@ -108,6 +109,26 @@ class HasOverlap(_Pair):
         d = self.sample_pair(rng)
         d.update(ms=rng.random() < 0.5, fs=rng.random() < 0.5)
         return d
+
+
+class OverlapCore(_Pair):
+    """SingleInterval._has_overlap_single_interval: the contract that contracts/lib.py:has_overlap_single_summary hands
+    to callers (heavy gene-layer cases opt in to it instead of re-exploring the comparison cascade)."""
+    func = SINGLE + "._has_overlap_single_interval"
+    no_summaries = (SINGLE + "._has_overlap_single_interval",)  # this case verifies the real body
+    parents = "none"
+    name = "SingleInterval._has_overlap_single_interval = [max(starts) < min(ends)] (callee contract)"
+    call = "self._has_overlap_single_interval(other)"
+    ensures = {
+        "a-bool": lambda i, r: isinstance(r, bool) or (hasattr(r, "sort") and str(r.sort()) == "Bool"),
+        "iff-a-common-position": lambda i, r: Iff(r, set_overlap(i)),
+    }
+
+    def inputs(self, S):
+        return self.pair(S)
+
+    def samples(self, rng):
+        return self.sample_pair(rng)
 
 
 class Intersection(_Pair):
@@ -455,6 +476,10 @@ for _p in ("none", "same", "different"):
 for _q in (False, True):
     CASES += [ExtendAbsolute(_q), ExtendRelative(_q), ShiftPosition(_q), SingleInit(_q)]
 CASES.append(Misc())
+_oc = OverlapCore()
+# every property whose cases run through the callee contract re-proves it on the current tree
+_oc.props = tuple(f"C{k:02d}" for k in range(1, 21))
+CASES.append(_oc)
 
 CANARIES = [
     dict(name="single overlap: <= on touching intervals", props=("C02",), file="inscripta/biocantor/location/location_impl.py",
